@@ -53,12 +53,13 @@ func c01Report(l *evlog.Log) quicworld.Reporter {
 func TestVerifC01Faults(t *testing.T) {
 	l := evlog.Open("C01")
 	defer l.Close()
-	clients := []quicworld.ClientSel{{Client: "plain"}, {Client: "plain", V2: true}, {Client: "unil"}, {Client: "Chrome_115_IPv4"}}
+	clients := []quicworld.ClientSel{{Client: "plain"}, {Client: "plain", V2: true}, {Client: "unil"}, {Client: "Chrome_115_IPv4"}, {Client: "Firefox_116A"}}
 	var cases []*quicworld.ConnCase
 	if l.Quick() {
 		cases = quicworld.FaultSuite(l, clients, []string{"S1"}, 8, 400, 100, 200)
 	} else {
-		cases = quicworld.FaultSuite(l, clients, []string{"S1", "S2", "S5"}, 10, 8000, 8000, 3000)
+		clients = append(clients, quicworld.ClientSel{Client: "unil", V2: true}, quicworld.ClientSel{Client: "Chrome_146_IPv4"}, quicworld.ClientSel{Client: "Firefox_116C"})
+		cases = quicworld.FaultSuite(l, clients, []string{"S1", "S2", "S3", "S5", "S6"}, 12, 60000, 40000, 12000)
 	}
 	quicworld.RunSuite(t, l, cases, c01Report(l))
 }
